@@ -200,14 +200,38 @@ func checkC08(w *World, r *Report) {
 	// ---- (b) evaluation switch
 	evalFn := w.method("RenderContext", "evaluateBinaryOp")
 	evalCases, _ := w.stringSwitchCases(w.decl(evalFn), true)
-	r.floor("string cases in evaluateBinaryOp", len(evalCases), 10)
+	// operators dispatched through a package-level table indexed by the operator (a map of
+	// functions) have their arm in that table
+	evalTable := map[string]bool{}
+	ast.Inspect(w.decl(evalFn).Body, func(n ast.Node) bool {
+		ix, ok := n.(*ast.IndexExpr)
+		if !ok {
+			return true
+		}
+		lit := w.pkgVarLiteral(ix.X)
+		if lit == nil {
+			return true
+		}
+		if mt, ok := w.Info.TypeOf(ix.X).Underlying().(*types.Map); !ok || !types.Identical(mt.Key().Underlying(), types.Typ[types.String]) {
+			return true
+		}
+		for _, el := range lit.Elts {
+			if kv, ok := el.(*ast.KeyValueExpr); ok {
+				if ktv := w.Info.Types[kv.Key]; ktv.Value != nil && ktv.Value.Kind() == constant.String {
+					evalTable[constant.StringVal(ktv.Value)] = true
+				}
+			}
+		}
+		return true
+	})
+	r.floor("string cases in evaluateBinaryOp", len(evalCases)+len(evalTable), 10)
 	epos := w.pos(w.decl(evalFn))
 	for _, op := range ops {
 		if op == "is" || op == "is not" {
 			continue // build test nodes, never reach evaluateBinaryOp
 		}
 		construct := fmt.Sprintf("evaluation arm for %q", op)
-		if evalCases[op] != nil {
+		if evalCases[op] != nil || evalTable[op] {
 			r.ok("R08.1", "(*RenderContext).evaluateBinaryOp", construct, epos, "has an arm", true)
 		} else {
 			r.bad("R08.1", "(*RenderContext).evaluateBinaryOp", construct, epos, "the operator has a precedence (the parser builds a binary node for it) but no evaluation arm")
@@ -215,6 +239,9 @@ func checkC08(w *World, r *Report) {
 	}
 	var eops []string
 	for op := range evalCases {
+		eops = append(eops, op)
+	}
+	for op := range evalTable {
 		eops = append(eops, op)
 	}
 	sort.Strings(eops)
